@@ -156,7 +156,7 @@ def _shard(sh_: Dict[str, Any]) -> Dict[str, Any]:
             cex.append({"shape": si, "budgets": [sh_["rich"], sh_["frames"], sh_["ctxs"], sh_["texts"]],
                         "flags": {k: m.get(k) for k in list(FL.used) + ["opt_show_contexts", "opt_show_hidden_frames", "opt_capture_locals"]}, "why": why})
 
-    eng = Engine(max_seconds=sh_.get("budget", 600))
+    eng = Engine(max_seconds=sh_.get("budget", 600), max_paths=3_000_000)
     eng.explore(harness)
     return par.shard_result(eng, shard=f"shape{si}/{sh_['opts']}", cex=cex, samples=samples)
 
@@ -169,8 +169,8 @@ def run(rep: Any, tier: str, seed: int) -> None:
     rep.bounds = {"trees": "the C18 shape table with symbolic node flags", "options": "show_contexts x show_hidden_frames x capture_locals (z3 Bools)"}
     rep.outside = ["start_line == 0 (falsy, falls back to the frame's line; not a valid line)", "symbolic line numbers (the standard library looks lines up eagerly)",
                    "trees beyond the shape table"]
-    rich, nfr, nctx, ntext = (0, 1, 2, 1) if tier == "quick" else (1, 2, 3, 2)
-    shards = [{"shape": i, "rich": rich, "frames": nfr, "ctxs": nctx, "texts": ntext, "opts": [a, b, c], "budget": 600 if tier == "quick" else 2400}
+    rich, nfr, nctx, ntext = (0, 1, 2, 1) if tier == "quick" else (1, 2, 2, 1)
+    shards = [{"shape": i, "rich": rich, "frames": nfr, "ctxs": nctx, "texts": ntext, "opts": [a, b, c], "budget": 600 if tier == "quick" else 1500}
               for i in range(len(F.shapes())) for a in (False, True) for b in (False, True) for c in (False, True)]
     res = par.run_shards("harness.c19", "_shard", shards)
     for c in par.fold(rep, OB, res):
